@@ -567,6 +567,8 @@ func scenario(name string, idxs []string, keys []string, stale []int, script ...
 	return c
 }
 
+const c5K8Scenario = "stale/K8-two-indexes-later-snapshot-detected"
+
 func c5Scenarios() []*c5case {
 	pk := c5spec{Pfx: []byte("k"), IgnDel: true}
 	ks := []string{"ka", "kb", "kc", "kd", "ke", "km", "kz"}
@@ -613,12 +615,15 @@ func c5Scenarios() []*c5case {
 		scenario("stale/old-snapshot-reused-detected", []string{"k"}, ks, []int{0},
 			W(kv("ka", "1")), c5act{Kind: "refresh", Idx: 0}, W(kv("ka", "2")), T(0, opGet("ka")), T(0, opSet("kb", "x")), T(0, opCommit)),
 	)
-	// --- findings (each reproduces on the tree as it is; registered in known_findings.json) ---
+	// --- repaired finding K8 (checkPreconditions did `return nil` at the first snapshot with Ts() > lastPrecommitted and so
+	// skipped the validation of a later, stale snapshot of another index): MUST end in a read conflict ---
 	cs = append(cs,
-		// K8: the early `return nil` in checkPreconditions skips the validation of a later, stale snapshot
-		scenario("finding/K8-two-indexes-early-return", []string{"a", "b"}, []string{"a1", "a2", "b1"}, []int{0},
+		scenario(c5K8Scenario, []string{"a", "b"}, []string{"a1", "a2", "b1"}, []int{0},
 			W(kv("a1", "x"), kv("b1", "v1")), c5act{Kind: "refresh", Idx: 1}, W(kv("b1", "v2")), c5act{Kind: "refresh", Idx: 0},
 			T(0, opSet("a2", "w")), T(0, opGet("b1")), T(0, opCommit)),
+	)
+	// --- findings (each reproduces on the tree as it is; registered in known_findings.json) ---
+	cs = append(cs,
 		// a scan that stops on a row written by the tx itself: the row held by the validator is dropped uncompared
 		scenario("finding/scan-own-write-tail", []string{"k"}, ks, []int{-1},
 			W(kv("ka", "1"), kv("kz", "9")), T(0, opSet("km", "own")), T(0, opScan(pk, 2)), W(kv("kc", "phantom")), T(0, opCommit)),
@@ -649,6 +654,7 @@ var c5Expect = map[string][]string{
 	"abort/cancel-leaves-nothing":                          {"cancelled"},
 	"ryow/own-writes-visible":                              {"committed"},
 	"stale/old-snapshot-reused-detected":                   {"conflict"},
+	c5K8Scenario:                                           {"conflict"},
 }
 
 // ---------- random generation ----------
@@ -858,13 +864,16 @@ func runC05(r *hx.Result, rng *hx.Rng, thorough bool, replay string) error {
 						if len(c.Name) > 5 && c.Name[:5] == "stale" {
 							sig = "C05:serializability:stale-read-committed"
 						}
+						if c.Name == c5K8Scenario {
+							sig = "C05:serializability:stale-read-committed:later-snapshot-unvalidated"
+						}
 					}
 					r.Fail(sig, fmt.Sprintf("%s: tx %d ended %q, expected %q", c.Name, i, t.Final, exp[i]),
 						map[string]interface{}{"case": c.Name, "script": scriptStrings(c)})
 				}
 			}
 		}
-		if len(c.Name) > 7 && c.Name[:7] == "finding" {
+		if (len(c.Name) > 7 && c.Name[:7] == "finding") || c.Name == c5K8Scenario {
 			r.Sample(map[string]interface{}{"scenario": c.Name, "script": scriptStrings(c), "verdict": c.Txs[0].Final, "id": c.Txs[0].CommitID,
 				"snapshots": fmt.Sprintf("base=%v ts=%v", c.Txs[0].SnapBase, c.Txs[0].SnapTs)})
 		}
